@@ -294,6 +294,28 @@ pub fn facts(bs: &[B], addr_mask: u64, f: &mut Facts, depth: usize) {
     }
 }
 
+/// Exchange units 0 and 1 in every reference of a program.
+pub fn swap_units(bs: &[B]) -> Vec<B> {
+    let m = |e: &ERef| ERef { unit: if e.unit < 2 { 1 - e.unit } else { e.unit }, entry: e.entry };
+    bs.iter()
+        .map(|b| match b {
+            B::ConstType(e, d) => B::ConstType(m(e), d.clone()),
+            B::RegvalType(r, e) => B::RegvalType(*r, m(e)),
+            B::DerefType(s, e) => B::DerefType(*s, m(e)),
+            B::XderefType(s, e) => B::XderefType(*s, m(e)),
+            B::Convert(Some(e)) => B::Convert(Some(m(e))),
+            B::Reinterpret(Some(e)) => B::Reinterpret(Some(m(e))),
+            B::Call(e) => B::Call(m(e)),
+            B::ParameterRef(e) => B::ParameterRef(m(e)),
+            B::CallRef(e) => B::CallRef(m(e)),
+            B::VariableValue(e) => B::VariableValue(m(e)),
+            B::ImplicitPointer(e, o) => B::ImplicitPointer(m(e), *o),
+            B::EntryValue(inner) => B::EntryValue(swap_units(inner)),
+            other => other.clone(),
+        })
+        .collect()
+}
+
 pub fn has_refs(f: &Facts) -> bool {
     !(f.uleb_refs.is_empty() && f.fixed_refs.is_empty() && f.info_refs.is_empty())
 }
@@ -394,6 +416,14 @@ pub fn build(bs: &[B], ids: Option<&Ids>) -> Result<w::Expression, String> {
             return Err("harness: bad branch target".into());
         }
         ex.set_target(idx, t);
+    }
+    // as_raw: Some(bytes) exactly for an expression that consists of raw bytecode only
+    let want_raw: Option<Vec<u8>> = match bs {
+        [B::Raw(ops)] => Some(ops.iter().flat_map(|o| o.bytes.iter().copied()).collect()),
+        _ => None,
+    };
+    if ex.as_raw().map(|b| b.to_vec()) != want_raw {
+        return Err(format!("as_raw() = {:?}, expected {:?}", ex.as_raw(), want_raw));
     }
     Ok(ex)
 }
